@@ -213,6 +213,17 @@ def len_gt(p, bb, coll, k):
     (len() switch, len() compared with a constant either way round, is_empty(), slice-pattern length tests); an element drawn from
     `.filter(pred)` also satisfies pred"""
     c0 = _lib.coll(coll)
+    # a tail / a prefix of a collection whose length is known: x[a..] has len(x) - a elements, x[a..b] has b - a (the slicing itself has
+    # already succeeded when the element is read)
+    s0 = strip_refs(coll)
+    if is_index_call(s0) and len(call_args(s0)) == 2:
+        cr = _lib.canon_range(call_args(s0)[0], call_args(s0)[1])
+        if cr is not None and const_int(cr[0]) is not None and const_int(cr[0]) >= 0:
+            if cr[1] == LEN:
+                if len_gt(p, bb, call_args(s0)[0], k + const_int(cr[0])):
+                    return True
+            elif const_int(cr[1]) is not None and const_int(cr[1]) - const_int(cr[0]) > k:
+                return True
 
     def facts_of(conds):
         out = []
